@@ -134,9 +134,13 @@ equal lengths at every level — checked here as inclusion both ways. -/
 def beq (a b : Trie) : Bool := sub a b && sub b a
 
 /-- `rebase` (681-690). -/
-def rebase (t : Trie) : Path → Trie
+def rebaseAux (t : Trie) : Path → Trie
   | [] => t
-  | k :: ks => .node [(k, rebase t ks)]
+  | k :: ks => .node [(k, rebaseAux t ks)]
+
+/-- (fix C10-F34: an empty set stays empty; before the fix `rebase` wrapped the empty dict into
+a dead branch `{k: {}}`.) -/
+def rebase (t : Trie) (p : Path) : Trie := if t.truthy then rebaseAux t p else t
 
 mutual
   /-- `_remove_same` of `difference_update` (700-713): the new target. -/
